@@ -1442,14 +1442,29 @@ impl Relation {
     pub fn architectures(&self) -> Option<impl Iterator<Item = String> + '_> {
         let architectures = self.0.children().find(|n| n.kind() == ARCHITECTURES)?;
 
-        Some(architectures.children_with_tokens().filter_map(|node| {
-            let token = node.as_token()?;
-            if token.kind() == IDENT {
-                Some(token.text().to_string())
-            } else {
-                None
-            }
-        }))
+        // A negated architecture ("!amd64") is reported with its '!'
+        let mut negated = false;
+        Some(
+            architectures
+                .children_with_tokens()
+                .filter_map(move |node| {
+                    let token = node.as_token()?;
+                    if token.kind() == NOT {
+                        negated = true;
+                        None
+                    } else if token.kind() == IDENT {
+                        let name = if negated {
+                            format!("!{}", token.text())
+                        } else {
+                            token.text().to_string()
+                        };
+                        negated = false;
+                        Some(name)
+                    } else {
+                        None
+                    }
+                }),
+        )
     }
 
     /// Returns an iterator over the build profiles for this relation
